@@ -249,6 +249,11 @@ func c03Run(c *Ctx) {
 					continue
 				}
 			}
+			// prune: an event that certainly faults (outside function bodies, where
+			// the static scope is the dynamic one) may only be the last event
+			if c03CertainFault(ev, names) {
+				continue
+			}
 			ev = append(ev, e)
 			rec()
 			ev = ev[:len(ev)-1]
@@ -330,4 +335,74 @@ func init() {
 		Judge:       c03Judge,
 		MustCount:   func(c *Ctx) []string { return []string{"gen:histories-len5", "gen:handwritten", "gen:random-programs", "programs_with_shadowing", "programs_with_calls", "hook_lookups_verified", "fault:UndefinedName", "fault:Redeclare", "clean", "cli_runs"} },
 	})
+}
+
+// c03CertainFault: does the history (so far) already contain an event that
+// certainly raises a runtime fault?  Only events outside function bodies are
+// judged, by a static walk of the block / loop scopes.
+func c03CertainFault(ev []int, names []string) bool {
+	nn := len(names)
+	type scope struct {
+		kind string
+		vars map[string]bool
+	}
+	stack := []scope{{"top", map[string]bool{"h": true}}}
+	inFun := 0
+	hIsFn := false
+	has := func(n string) bool {
+		for i := len(stack) - 1; i >= 0; i-- {
+			if stack[i].vars[n] {
+				return true
+			}
+		}
+		return false
+	}
+	for _, e := range ev {
+		switch {
+		case e < 2*nn: // declare
+			n := names[e%nn]
+			if inFun == 0 && stack[len(stack)-1].vars[n] {
+				return true
+			}
+			stack[len(stack)-1].vars[n] = true
+		case e < 4*nn: // assign / read
+			if inFun == 0 && !has(names[e%nn]) {
+				return true
+			}
+		default:
+			switch e - 4*nn {
+			case 0:
+				stack = append(stack, scope{"block", map[string]bool{}})
+			case 1:
+				stack = append(stack, scope{"loop", map[string]bool{names[0]: true}})
+			case 2:
+				stack[len(stack)-1].vars["f"] = true
+				stack = append(stack, scope{"fun", map[string]bool{names[0]: true, "f": true}})
+				inFun++
+			case 3:
+				if len(stack) > 1 {
+					if stack[len(stack)-1].kind == "fun" {
+						inFun--
+					}
+					stack = stack[:len(stack)-1]
+				}
+			case 4:
+				if inFun == 0 && !has("f") {
+					return true
+				}
+			case 5:
+				if inFun == 0 {
+					if !has("f") {
+						return true
+					}
+					hIsFn = true
+				}
+			case 6:
+				if inFun == 0 && !hIsFn {
+					return true
+				}
+			}
+		}
+	}
+	return false
 }
